@@ -8,10 +8,15 @@ toggle independence, areas / volumes / contour lengths against the drawn geometr
 against terminal quantities."""
 import os, json, math
 import vlib, femgen, femmrun
+from props import ext as extmod
 from femgen import Builder, mesh_diameter, UNIT_M
 
 LEVEL = "proof"
 COQ_MODULES = []
+# the per-element terms of every block integral of the three post-processors: models IntegralsE.v / IntegralsH.v / IntegralsM.v,
+# theorems in Properties_C13_integrals.v, harness h_blockint.cpp (props/xint.py)
+EXTENSIONS = ["xint"]
+EXTRA_PROPERTY_FILES = ["C13_integrals"]
 ASSUMPTIONS = [
     "the per-element integrands themselves (energy density etc.) are tied to the code by C12's correspondence, not re-modelled here",
     "regions bounded by arcs are compared with the area of their chord polygon (the mesh never contains the circular segments)",
@@ -174,4 +179,13 @@ def correspond(ctx):
                    "coenergy (magnetostatics)")
     cov["input_distribution"] = feats
     cov["samples"] = samples
-    return []
+    return extmod.run(ctx, EXTENSIONS)
+
+
+def regen(ctx):
+    from props import xint
+    xint.regen(ctx)
+
+
+def search(ctx, broken):
+    return extmod.search(ctx, EXTENSIONS, broken)
